@@ -65,10 +65,27 @@ def judge(T, frames, sp, res, fire, skip, sc):
         T.fail("spec", sc, f"{len(want)} messages", f"{len(seq)} results: {seq[:6]}",
                {"site": "recv_data_frame", "cls": "message-count"})
         return
-    for w, r in zip(want, seq):
+    # which text messages are ill-formed (CPython's strict decoder = Unicode Table 3-7; ./check C06 ties both to the spec)
+    wellformed, cur = [], None
+    for f in (frames or []):
+        if f[0] in (1, 2):
+            cur = [f[0], b""]
+        if f[0] in (0, 1, 2) and cur is not None:
+            cur[1] += f[2]
+            if f[1]:
+                ok = True
+                if cur[0] == 1:
+                    try:
+                        cur[1].decode("utf-8")
+                    except UnicodeDecodeError:
+                        ok = False
+                wellformed.append(ok)
+                cur = None
+    for i_, (w, r) in enumerate(zip(want, seq)):
         if r == "raise:Payload":
-            if skip or w[0] != "1":
-                T.fail("spec", sc, str(w), r, {"site": "recv_data_frame", "cls": "payload-error-unexpected"})
+            if skip or w[0] != "1" or (i_ < len(wellformed) and wellformed[i_]):
+                T.fail("spec", sc, str(w), r, {"site": "recv_data_frame", "cls": "payload-error-unexpected"},
+                       what="a message whose reassembled payload is well-formed (or that is binary / validation is off) was refused instead of delivered")
                 return
             continue
         parts = r.split(":")
@@ -77,6 +94,21 @@ def judge(T, frames, sp, res, fire, skip, sc):
                 T.fail("spec", sc, str(w), r, {"site": "recv_data_frame", "cls": "reassembly"},
                        what="delivered message differs from the in-order concatenation with the first fragment's opcode")
                 return
+
+
+def parse_frames(stream):
+    """(op, fin, payload) of the unmasked server frames of a stream produced by encode_frames"""
+    out, i = [], 0
+    while i + 2 <= len(stream):
+        b0, n = stream[i], stream[i + 1] & 0x7F
+        i += 2
+        if n == 126:
+            n = int.from_bytes(stream[i:i + 2], "big"); i += 2
+        elif n == 127:
+            n = int.from_bytes(stream[i:i + 8], "big"); i += 8
+        out.append((b0 & 0x0F, b0 >> 7, stream[i:i + n]))
+        i += n
+    return out
 
 
 def run(ctx):
@@ -127,5 +159,5 @@ def replay(ctx, sc):
     sp = parse_specseq(ctx.spec.run([f"specseq {0 if sc['skip'] else 1} {hx(stream)}"])[0])
     _, line, _ = observe(stream, [], "rd0", sp["n"] + 2, sc["fire"], sc["skip"])
     T = Tally()
-    judge(T, None, sp, results_of(line), sc["fire"], sc["skip"], sc)
+    judge(T, parse_frames(stream), sp, results_of(line), sc["fire"], sc["skip"], sc)
     return T.failures[0] if T.failures else None
